@@ -13,7 +13,7 @@ import numpy as np
 
 from checks import c06_model as model
 
-DEPTH = {"quick": 4, "thorough": 6}
+DEPTH = {"quick": 5, "thorough": 7}
 RULE = ("History part: three slots (P: 3 points, Q: 3 other points, S: 2 "
         "points; imposed permutations reversal / cyclic shift / reversal; "
         "slot Q in the other tree class), operations build(slot) and "
